@@ -47,6 +47,9 @@ def run(ck):
     add("empty label", protocol.filler(3, rng), label="-")
     for _ in range(4 if quick else 40):
         add("gadget mix", protocol.gadget_circuit(rng, size_hint=rng.randrange(0, 7)))
+    # a very regular circuit: the description inflates at several hundred to one (deflate legitimately reaches ~1000:1)
+    S.cmd("pp", "ppbig", (1 << 14) + 6, 3)
+    add("16000 identical rows (deflate ratio about 300:1)", ["w 2", "w 3"] + ["gate 1 0 0 0 0 6 - $0 $1 0 0".replace(" 6 ", " " + hx(R - 6) + " ")] * 16000, pp="ppbig")
     # capacities from too small to ample
     for c in ([4, 10, 11, 26, 27] if quick else [4, 5, 9, 10, 11, 25, 26, 27, 57, 58, 59, 122, 123]):
         nd = npo2(c + 6)
@@ -113,7 +116,7 @@ def run(ck):
             if m > 4 * honest_mem + (1 << 20):
                 ck.violation(f"decompression of a malformed description allocated {m} bytes (honest compile on the same parameters: {honest_mem}): {desc}", ctx, key="alloc")
     return ck.finish(level="proof",
-        rule="circuits whose selectors equal each built-in table entry (0, 1, -1, Hades round constants, all nine MDS values 1/5..1/13), unused witnesses, repeated/distinct selector tuples, zero-valued and first/last-row public inputs, empty label, gadget mixes: prover and verifier digests of both routes, compressed-route proof under the direct-route verifier; SRS degrees from 1 to 2x needed (model's proved capacity functions predict both routes); malformed descriptions (trailing bytes after/inside the stream, excess counts, out-of-range indices, too many constraints, bomb) with peak allocation against an honest compile",
+        rule="circuits whose selectors equal each built-in table entry (0, 1, -1, Hades round constants, all nine MDS values 1/5..1/13), unused witnesses, repeated/distinct selector tuples, zero-valued and first/last-row public inputs, empty label, gadget mixes: prover and verifier digests of both routes, compressed-route proof under the direct-route verifier; a 12000-row regular circuit (high deflate ratio), SRS degrees from 1 to 2x needed (model's proved capacity functions predict both routes); malformed descriptions (trailing bytes after/inside the stream, excess counts, out-of-range indices, too many constraints, bomb) with peak allocation against an honest compile",
         assumptions=["deflate/inflate of miniz_oxide round-trips and respects the output limit", "msgpacker encodes the MessagePack subset parsed here"],
         checker_cmd=proofgate.CHECKER_CMD, trusted_base=proofgate.TRUSTED)
 
